@@ -231,3 +231,8 @@ class MoashaOnTrialResult:
             rec1 = br1._rungs[j][1]
             out["metrics-mapped-to-min"] = rec1[old.trial.trial_id]["m0"] == old.result["m0"] * old.self._metric_op["m0"] and rec1[old.trial.trial_id]["m1"] == old.result["m1"] * old.self._metric_op["m1"]
         return out
+
+
+from pyvc.native import native_monitor  # noqa: E402
+
+EXTRA_CHECKS = [native_monitor("C19", "contracts.c19_native", "monitor_moasha", "moasha", "704 point sets + 1086 MOASHA scenarios (thorough 6535 in total): pareto filter / non-dominated sort / priorities on every small grid set and random sets (n <= 9 (12), dimension 1..5, ties, duplicates) x preferred dimension x max_items; the real MOASHA (max_t <= 27, rf in {1.5,2,2.5,3,4}, brackets 1..3, every min/max list, all priorities) under every arrival order of 3-4 (5) chain points and random interleavings with level-skipping / late-first reporters and on_trial_complete, exact rational rank fractions, min/max twin with permuted metric order")]
